@@ -422,6 +422,35 @@ def r_unwrap_guard(rep, f):
         rep.ok("R-UNWRAP-GUARD", "R-UNWRAP-GUARD:coverage", "all syntactic unwrap sites of %d functions were reached (%d decided, %d listed)" % (len(scopes), n_dec, len(listed)), nontrivial=False)
 
 
+class BudgetOrderMon(mon.Monitor):
+    """(budget test passed since the last increment, increment waiting for its test)"""
+    init = ((False, False),)
+
+    def __init__(self, fn, main, tests, ode_def):
+        super().__init__()
+        self.fn, self.main, self.tests, self.ode_def = fn, main, tests, ode_def
+
+    def step(self, st, ev):
+        kind, n = ev[0], ev[1]
+        t, p = st
+        if kind == "loop_head" and n is self.main:
+            return ((False, p),)
+        if kind == "else" and any(n is q for q in self.tests):
+            return ((True, False),)
+        if kind == "then" and any(n is q for q in self.tests):
+            return ()         # the exit
+        if kind == "else" and is_solout_iflet(n):
+            return ()
+        if kind == "node":
+            if n.get("k") == "AssignOp" and n["op"].startswith("Add") and n["l"].get("k") == "Field" and (n["l"].get("fdef") or "") == "methods::Steps::total":
+                return ((False, False),) if t else ((False, True),)
+            if p and n.get("k") == "MethodCall" and n.get("def") == self.ode_def:
+                self.violate("R-NMAX-GUARD:%s:order" % self.fn, "Steps::total is incremented and the attempt goes on to evaluate the right-hand side without passing the budget test "
+                             "`total >= max_steps`: attempts that end in `continue` never reach the test, so more than max_steps + 1 attempts can be made", n, self.cur_trail)
+                return ((t, False),)
+        return (st,)
+
+
 def r_guards(rep, f, include_rk4=False):
     for mod, ty in (SOLVERS if include_rk4 else CONTROLLED):
         fn = solve_fn(mod, ty)
@@ -451,6 +480,14 @@ def r_guards(rep, f, include_rk4=False):
                           and tast.contains(z["cond"]["l"], lambda q: q.get("k") == "Field" and (q.get("fdef") or "") == "methods::Steps::total")
                           and tast.contains(z["then"], lambda q: q.get("k") == "Path" and q.get("def") == "status::Status::NeedLargerNMax")
                           and tast.contains(z["then"], lambda q: q.get("k") == "Break"))
+        if len(tests) == 1:
+            bm = BudgetOrderMon(fn, main, tests, "ivp::IVP::ode")
+            mon.Runner(bm).run_fn(body)
+            if bm.violations:
+                k_, msg_, node_, tr_ = bm.violations[0]
+                rep.violation("R-NMAX-GUARD", k_, msg_, node_.get("sp") if isinstance(node_, dict) else None)
+            else:
+                rep.ok("R-NMAX-GUARD", "R-NMAX-GUARD:%s:order" % fn, "every increment of Steps::total is paired with the budget test before the attempt's stage evaluations")
         key = "R-NMAX-GUARD:%s" % fn
         if len(tests) != 1:
             rep.violation("R-NMAX-GUARD", key, "expected one `steps.total >= nmax => NeedLargerNMax; break` test in the main loop, found %d" % len(tests), main.get("sp"))
